@@ -562,6 +562,7 @@ def unit_for(repo, tg):
              rewrite=fn_arms.compose(fn_arms.make_arm_splitter(tg["rel"], tg["arms"]) if tg.get("arms") else None,
                                      make_rewriter(tg["rel"], norm) if norm else None))
     u.log_macros = tuple(tg.get("log_macros", ()))     # declared logging-only macros of the file
+    u.rename_getters = bool(tg.get("rename_getters"))  # (b1012) methods named like a field of their struct get the suffix `_fn`
     u.reindent_closures = bool(tg.get("reindent_closures"))    # (b0809) see emit_m in rs2lean.py
     return u
 
